@@ -18,6 +18,17 @@ impl Wire for u32 {
     }
 }
 
+/// map values wider than their protocol range (the in-memory `(u32, u64)` pair is padded to 16 bytes, its encoding takes 12)
+impl Wire for u64 {
+    const MAP_TAG: &'static str = "p";
+    fn from_sx(x: &Sx) -> Option<Self> {
+        x.nat().map(|v| v as u64)
+    }
+    fn to_sx(&self) -> Sx {
+        n(*self as usize)
+    }
+}
+
 /// `f64` atoms: protocol code 999999 = NaN, 1000001 = -0.0, any other n = n as f64 (the model's `nanCode` / `negZero`)
 impl Wire for f64 {
     fn from_sx(x: &Sx) -> Option<Self> {
